@@ -1,3 +1,219 @@
-/- C07 — property theorems only (helper lemmas live in `Rooc/Proofs`). -/
+/-
+C07 — Derived variable ranges are sound.  PROPERTY THEOREMS ONLY (helper lemmas live in `Rooc/Proofs/Bounds*`).
+
+`K` is any linearly ordered field (in particular ℝ).  Ranges carry endpoints in `Ext K`
+(`nan | ninf | fin k | pinf`: IEEE special values, exact arithmetic).  The statements are about the very
+definitions of `Rooc/Bounds.lean` that run at `Float` in the correspondence check.
+Vocabulary (`Rooc/BoundsSem.lean`): `Mem x b` (x lies in the range, false for a NaN endpoint),
+`InBox ρ vb` (every variable lies in its range), `InDomain`, `Holds ρ c`, `SrcFeasible`.
+`Sem.eval ρ e = some v` means "e is defined at ρ with value v"; an expression that contains a non-finite
+literal or divides by zero has no value, so the hypothesis `FiniteLits` of DESIGN.md §6 is implied by
+definedness and does not appear separately (see `infinite_coefficient_range_contains_nothing` for what
+happens without it).
+
+Not covered by these theorems (trusted base §5.4): IEEE rounding.  The implementation rounds to nearest,
+not outwards; the exact oracle measures the resulting escape on every run.
+-/
+import Rooc.BoundsSem
+import Rooc.Proofs.BoundsFrame
 namespace Rooc.Props.C07
+open Rooc Rooc.BoundsSem Rooc.BoundsProofs Rooc.Sem
+
+variable {K : Type} [Field K] [LinearOrder K] [IsStrictOrderedRing K] [FloorRing K]
+
+/-! ### forward enclosure -/
+
+/-- `bounds_of(e)` contains the value of `e` at every assignment inside the variable ranges — every
+expression constructor, every box (infinite and NaN endpoints included: a NaN range has no inside). -/
+theorem boundsOf_encloses (vb : List (String × Bounds (Ext K))) (ρ : String → K) (e : Exp (Ext K)) (v : K)
+    (hbox : InBox ρ vb) (hv : eval ρ e = some v) : Mem v (Analyzer.boundsOf vb e) :=
+  boundsOf_mem vb ρ hbox e v hv
+
+example : ∃ (vb : List (String × Bounds (Ext K))) (ρ : String → K) (e : Exp (Ext K)) (v : K),
+    InBox ρ vb ∧ eval ρ e = some v :=
+  ⟨[("x", ⟨.fin 0, .pinf⟩)], fun _ => 1, .abs (.bin .sub (.var "x") (.num (.fin 3))), 2, by
+    intro n
+    by_cases h : "x" = n <;> simp [Analyzer.varBounds, AList.get?, h, mem_iff, Bounds.unbounded], by
+    simp [eval, binVal, kabs_eq]; norm_num⟩
+
+/-- without finite literals the enclosure has nothing to enclose: the range of `inf * x` over `x ∈ [0,1]`
+has a NaN endpoint (`0 · inf`), so it contains no number at all — and `inf * x` has no value either. -/
+theorem infinite_coefficient_range_contains_nothing (v : K) :
+    ¬ Mem v (Analyzer.boundsOf [("x", (⟨.fin 0, .fin 1⟩ : Bounds (Ext K)))] (.bin .mul (.num .pinf) (.var "x")))
+    ∧ ∀ ρ : String → K, eval ρ (.bin .mul (.num (.pinf : Ext K)) (.var "x")) = none := by
+  refine ⟨?_, fun ρ => by simp [eval]⟩
+  simp [Analyzer.boundsOf, Exp.asNum, Analyzer.varBounds, AList.get?, Bounds.scale, Ext.eq, Ext.lt, Ext.mul, Ext.sign,
+    Ext.sgn, Ext.ofSign, mem_iff]
+
+/-! ### intersection with tolerance -/
+
+/-- whatever `intersection` returns contains every common point — for EVERY tolerance (NaN included). -/
+theorem intersection_superset (a b r : Bounds (Ext K)) (tol : Ext K) (x : K)
+    (h : a.intersection b tol = some r) (ha : Mem x a) (hb : Mem x b) : Mem x r :=
+  mem_intersection h ha hb
+
+/-- and it never reports a contradiction while the two ranges have a common point. -/
+theorem intersection_some_of_common_point (a b : Bounds (Ext K)) (tol : Ext K) (x : K)
+    (ha : Mem x a) (hb : Mem x b) : ∃ r, a.intersection b tol = some r :=
+  intersection_isSome tol ha hb
+
+example : ∃ (a b : Bounds (Ext K)) (x : K), Mem x a ∧ Mem x b :=
+  ⟨⟨.fin 0, .fin 2⟩, ⟨.ninf, .fin 1⟩, 1, by simp [mem_iff], by simp [mem_iff]⟩
+
+/-! ### single tightening steps keep every admissible point in the box -/
+
+/-- `tighten_variable`: if the candidate contains `ρ(name)`, `ρ` stays in the box (tolerance-gated update,
+contradiction flag and the Boolean early return included). -/
+theorem tightenVariable_sound (ρ : String → K) (an : Analyzer (Ext K)) (name : String) (cand : Bounds (Ext K))
+    (hbox : InBox ρ an.variableBounds) (hc : Mem (ρ name) cand) :
+    InBox ρ (an.tightenVariable name cand).1.variableBounds :=
+  tightenVariable_inBox an name cand hbox hc
+
+/-- `tighten_expression` (reverse rules: abs upper-only, min lower-only, max upper-only, affine operators):
+if the value of `e` lies in `required`, `ρ` stays in the box. -/
+theorem tightenExpression_sound (ρ : String → K) (e : Exp (Ext K)) (required : Bounds (Ext K)) (s : TState (Ext K))
+    (v : K) (hbox : InBox ρ s.an.variableBounds) (hv : eval ρ e = some v) (hm : Mem v required) :
+    InBox ρ (Analyzer.tightenExpression e required s).an.variableBounds :=
+  tightenExpression_ok ρ e required s v hbox hv hm
+
+/-- `tighten_constraint_expression`: a point that satisfies the constraint stays in the box. -/
+theorem tightenConstraintExpression_sound (ρ : String → K) (c : Constraint (Ext K)) (s : TState (Ext K))
+    (hc : Holds ρ c) (hbox : InBox ρ s.an.variableBounds) :
+    InBox ρ (Analyzer.tightenConstraintExpression c (Bounds.required c.cmp) s).an.variableBounds :=
+  tightenConstraintExpression_inBox c s hc hbox
+
+/-- `AffineForm::from_constraint` + `tighten_affine_form` (merge with zero-coefficient removal, prefix and
+suffix sums, division by each coefficient, early exit on contradiction): a point that satisfies the row
+stays in the box. -/
+theorem tightenAffine_sound (ρ : String → K) (an : Analyzer (Ext K)) (c : Constraint (Ext K)) (f : AffineForm (Ext K))
+    (hf : AffineForm.fromConstraint c = some f) (hc : Holds ρ c) (hbox : InBox ρ an.variableBounds) :
+    InBox ρ (an.tightenAffineForm f c.cmp).an.variableBounds := by
+  obtain ⟨S, h1, h2⟩ := fromConstraint_den hf hc
+  exact tightenAffineForm_inBox an f c.cmp S h1 h2 hbox
+
+example : ∃ (ρ : String → K) (c : Constraint (Ext K)) (f : AffineForm (Ext K)),
+    AffineForm.fromConstraint c = some f ∧ Holds ρ c :=
+  ⟨fun _ => 1, ⟨"r", .bin .mul (.num (.fin 3)) (.var "x"), .le, .num (.fin 4), false⟩, _, rfl,
+   3, 4, by simp [eval, binVal], by simp [eval], by simp [cmpHolds]; norm_num⟩
+
+/-! ### the work-list -/
+
+/-- `propagate_affine_constraints`: for EVERY step limit (`fuel`), every dependency table, every queue
+content and every `queued` flag vector, with the freeze on contradiction: a point that satisfies all
+constraints and is in the box before the loop is in the box after it. -/
+theorem propagate_sound (ρ : String → K) (cs : List (Constraint (Ext K))) (deps : List (String × List Nat))
+    (fuel : Nat) (an : Analyzer (Ext K)) (queue : List Nat) (queued : List Bool)
+    (hcs : ∀ c ∈ cs, Holds ρ c) (hbox : InBox ρ an.variableBounds) :
+    InBox ρ (Analyzer.propagateLoop cs (cs.map AffineForm.fromConstraint) deps fuel an queue queued).variableBounds :=
+  propagateLoop_inBox cs hcs deps fuel an queue queued hbox
+
+/-- `BoundsAnalyzer::analyze`: every source-feasible assignment lies inside every derived variable range —
+for every tolerance and every step limit, for infeasible models (vacuous: no feasible point; the freeze
+only stops refining) and with infinite declared ranges. -/
+theorem analyze_sound (domain : List (DomVar (Ext K))) (cs : List (Constraint (Ext K))) (tol : Ext K) (maxSteps : Nat)
+    (ρ : String → K) (hρ : SrcFeasible domain cs ρ) :
+    InBox ρ (Analyzer.analyze domain cs tol maxSteps).variableBounds := by
+  unfold Analyzer.analyze Analyzer.propagate
+  exact propagateLoop_inBox cs hρ.2 _ _ _ _ _ (fromDomain_inBox domain tol hρ.1)
+
+example : ∃ (domain : List (DomVar (Ext K))) (cs : List (Constraint (Ext K))) (ρ : String → K),
+    SrcFeasible domain cs ρ :=
+  ⟨[⟨"x", .real (.fin 0) .pinf, 1⟩, ⟨"n", .int 0 5, 1⟩],
+   [⟨"r", .bin .add (.var "x") (.var "n"), .le, .num (.fin 4), false⟩], fun _ => 1, by
+    intro d hd
+    simp at hd
+    rcases hd with rfl | rfl
+    · simp [InDomain, Mem, Ext.le]
+    · exact ⟨1, by simp, by omega, by omega⟩, by
+    intro c hc
+    simp at hc; subst hc
+    exact ⟨2, 4, by simp [eval, binVal]; norm_num, by simp [eval], by simp [cmpHolds]; norm_num⟩⟩
+
+/-! ### copying the ranges into the domains -/
+
+/-- tolerant integer rounding: for every `tol ≥ 0`, an integer `n ≥ l` satisfies `n ≥ ⌈l − tol⌉`
+(and symmetrically for upper bounds). -/
+theorem integer_rounding_sound (tol l : K) (n : Int) (htol : 0 ≤ tol) :
+    (l ≤ n → Int.ceil (l - tol) ≤ n) ∧ ((n : K) ≤ l → n ≤ Int.floor (l + tol)) :=
+  ⟨fun h => Int.ceil_le.2 (by linarith), fun h => Int.le_floor.2 (by linarith)⟩
+
+/-- `apply_to_domain`: a point of the box that is in its declared domains is in the tightened domains
+(Boolean untouched, integer rounding with tolerance and saturating `as i32`, `max(lower, 0)` for
+`NonNegativeReal`, plain copy for `Real`), for every finite tolerance `≥ 0`.  `hi32`: integer ranges
+are `i32` ranges (the Rust type). -/
+theorem applyToDomain_sound (ρ : String → K) (an : Analyzer (Ext K)) (domain : List (DomVar (Ext K))) (tol : K)
+    (htol : an.tolerance = .fin tol) (htol0 : 0 ≤ tol)
+    (hi32 : ∀ d ∈ domain, ∀ lo hi, d.ty = .int lo hi → i32Min ≤ lo ∧ hi ≤ i32Max)
+    (hbox : InBox ρ an.variableBounds) (hd : ∀ d ∈ domain, InDomain d.ty (ρ d.name)) :
+    ∀ d' ∈ an.applyToDomain domain, InDomain d'.ty (ρ d'.name) := by
+  intro d' hd'
+  simp only [Analyzer.applyToDomain, List.mem_map] at hd'
+  obtain ⟨d, hdm, rfl⟩ := hd'
+  obtain ⟨h1, h2⟩ := applyToVar_inDomain an d tol htol htol0 (hi32 d hdm) hbox (hd d hdm)
+  rw [h1]; exact h2
+
+/-- the tolerance must not be negative: with `tol = -1` the integer `0 ≥ 0` is cut off (`⌈0 + 1⌉ = 1`). -/
+theorem applyToDomain_negative_tolerance_counterexample :
+    ∃ (ρ : String → K) (an : Analyzer (Ext K)) (d : DomVar (Ext K)),
+      an.tolerance = .fin (-1) ∧ InBox ρ an.variableBounds ∧ InDomain d.ty (ρ d.name) ∧
+      ¬ InDomain (an.applyToVar d).ty (ρ d.name) := by
+  refine ⟨fun _ => 0, ⟨[("n", ⟨.fin 0, .fin 5⟩)], [], .fin (-1), false, false⟩, ⟨"n", .int 0 5, 1⟩, rfl, ?_, ?_, ?_⟩
+  · intro n
+    by_cases h : "n" = n <;> simp [Analyzer.varBounds, AList.get?, h, mem_iff, Bounds.unbounded]
+  · exact ⟨0, by simp, by omega, by omega⟩
+  · simp only [Analyzer.applyToVar, AList.get?, beq_self_eq_true, if_true]
+    have h1 : (Arith.ceil (Arith.sub (Ext.fin (0:K)) (Ext.fin (-1))) : Ext K) = .fin 1 := by
+      simp [Arith.ceil, Ext.sub, Ext.add, Ext.neg]
+    have h2 : (Arith.floor (Arith.add (Ext.fin (5:K)) (Ext.fin (-1))) : Ext K) = .fin 4 := by
+      have : Int.floor ((5:K) + (-1)) = 4 := by
+        rw [show (5:K) + (-1) = ((4:Int):K) by norm_num]; exact Int.floor_intCast 4
+      simp only [Arith.floor, a_add, Ext.add, ef_add, ef_floor, ef_ofInt, this]; norm_num
+    simp only [h1, h2]
+    have e1 : (Ext.fin (1:K)) = Ext.fin ((1:Int):K) := by simp
+    have e4 : (Ext.fin (4:K)) = Ext.fin ((4:Int):K) := by simp
+    rw [e1, e4]
+    simp only [a_gt, Ext.lt, ef_lt, toI32_int, Ext.clampInt, i32Min, i32Max]
+    norm_num
+    rintro ⟨n, hn, h1, h2⟩
+    have : (n : K) = 0 := by simpa using hn.symm
+    have : n = 0 := by exact_mod_cast this
+    omega
+
+/-! ### the report of the hook (what the compiler publishes) -/
+
+/-- End to end, for the function the harness observes (`verif_hooks::analyze_bounds`): at every
+source-feasible assignment (1) every published variable range contains the variable's value, (2) every
+published expression range contains the expression's value (whenever it has one), (3) every tightened
+domain contains the variable's value. -/
+theorem analyzeBounds_sound (domain : List (DomVar (Ext K))) (cs : List (Constraint (Ext K)))
+    (exprs : List (Exp (Ext K))) (tol : K) (maxSteps : Nat) (htol0 : 0 ≤ tol)
+    (hi32 : ∀ d ∈ domain, ∀ lo hi, d.ty = .int lo hi → i32Min ≤ lo ∧ hi ≤ i32Max)
+    (ρ : String → K) (hρ : SrcFeasible domain cs ρ) :
+    let r := analyzeBounds domain cs exprs (.fin tol) maxSteps
+    (∀ p ∈ r.variables, Mem (ρ p.1) p.2) ∧
+    (∀ p ∈ exprs.zip r.expressions, ∀ v, eval ρ p.1 = some v → Mem v p.2) ∧
+    (∀ d' ∈ r.domain, InDomain d'.ty (ρ d'.name)) := by
+  have hbox := analyze_sound domain cs (.fin tol) maxSteps ρ hρ
+  have htol : (Analyzer.analyze domain cs (.fin tol) maxSteps).tolerance = .fin tol := by
+    unfold Analyzer.analyze Analyzer.propagate
+    exact propagateLoop_tolerance _ _ _ _ _ _ _
+  refine ⟨?_, ?_, ?_⟩
+  · intro p hp
+    simp only [analyzeBounds, List.mem_map] at hp
+    obtain ⟨d, _, rfl⟩ := hp
+    exact boundsOf_encloses _ ρ (.var d.name) _ hbox (by simp [eval])
+  · intro p hp v hv
+    simp only [analyzeBounds, List.zip_map_right, List.mem_map] at hp
+    obtain ⟨q, hq, rfl⟩ := hp
+    have := List.of_mem_zip hq
+    obtain ⟨_, h2⟩ := this
+    simp only [Prod.map_fst, Prod.map_snd, id] at hv ⊢
+    have hq' : q.1 = q.2 := by
+      have := List.mem_iff_getElem.1 hq
+      obtain ⟨i, hi, rfl⟩ := this
+      simp
+    rw [← hq']
+    exact boundsOf_encloses _ ρ _ v hbox hv
+  · exact applyToDomain_sound ρ _ domain tol htol htol0 hi32 hbox hρ.1
+
 end Rooc.Props.C07
